@@ -29,13 +29,19 @@ class Exact:
     Dg, Gs (dim x dim ints = g*Dg), ops: list of dict(S (dim x dim ints), t (dim Fractions), tD (3 ints),
     perm[c] (tuple), g=GroupOp)"""
 
-    def __init__(self, crys):
+    def __init__(self, crys, unit=None):
+        """unit: exact Fraction s if the lattice is s times a lattice with small rational metric (length-unit sweeps)"""
         self.crys = crys
         self.dim = d = crys.dim
         self.ok = False
         u = [[[rat(x, 480) for x in at] for at in lst] for lst in crys.basis]
         if any(x is None for lst in u for at in lst for x in at): return
-        g = [[rat(crys.metric[i, j]) for j in range(d)] for i in range(d)]
+        if unit is None:
+            g = [[rat(crys.metric[i, j]) for j in range(d)] for i in range(d)]
+        else:
+            u2 = Fraction(unit) ** 2
+            g = [[rat(crys.metric[i, j] / float(u2)) for j in range(d)] for i in range(d)]
+            if not any(x is None for r in g for x in r): g = [[x * u2 for x in r] for r in g]
         if any(x is None for r in g for x in r): return
         self.u, self.g = u, g
         D = 1
